@@ -47,6 +47,8 @@ func init() {
 			ob7 := c.R.Ob("C03.7", "ctrl/clamp-self", "an amount is clamped to zero only under a sign test of that very amount (no spurious 'gives nothing')", 2)
 			c.ClampTestsItself(ob7, relInterp)
 			obSign(c, "C03.8")
+			ob0 := c.R.Ob("C03.0", "roles", "the interpreter's money roles are found in the code", 0)
+			obApplyPostings(c, "C03.9", c.Roles(ob0))
 			ob5 := c.R.Ob("C03.5", "ctrl/negative", "only strictly negative amounts are rejected: a send of 0 goes through", 2)
 			c.NegativeTestStrict(ob5, "NegativeAmountErr")
 		},
@@ -149,6 +151,7 @@ func init() {
 			run := c.Fn(ob4, relInterp, "RunProgram")
 			c.CallOrder(ob4, "order:RunProgram:statements-after-fetch", run, reachesAvoiding(c, fetch, onDemand), reachesFn(c, disp), "statements run only after the balances were fetched")
 			obFetchFirst(c, "C09.4d")
+			obQueryComplete(c, "C09.4e")
 			obCacheMergeOnly(c, "C09.4b")
 			obBatchAlways(c, "C09.4c")
 			obSaveMonotone(c, "C09.5", r)
